@@ -434,6 +434,11 @@ func (lc *lockCtx) entryState(fn *ssa.Function) lockState {
 		if len(acc) == 0 && acc != nil {
 			break
 		}
+		if e.Kind == "hoarg" {
+			// "called on behalf of the site that passes the function": the real call is the
+			// `param` edge inside the higher-order callee, judged below
+			continue
+		}
 		if _, isGo := e.Site.(*ssa.Go); isGo || e.Kind == "extarg" || e.Kind == "invoke" || e.Caller == nil {
 			return lockState{}
 		}
